@@ -42,9 +42,10 @@
 //	G  a global of an expanded package is an address like any other; its uses are found by a scan of
 //	   all expanded functions (SSA keeps no referrer lists for globals).
 //
-// Not modelled (stated in the evidence): (L1) a reference stored into memory, re-loaded elsewhere and
-// written through THERE is seen by later readers of that memory (M1/M2) but not by code that kept the
-// original reference in a register; (L2) writes through package reflect / unsafe into struct fields
+// Not modelled (stated in the evidence): (L1) a reference stored into a slice/array/map element or
+// passed through a channel, re-loaded elsewhere and written through THERE is seen by later readers of
+// that memory (M1) but not by code that kept the original reference in a register (D2 covers
+// globals, struct fields and local cells only); (L2) writes through package reflect / unsafe into struct fields
 // are attributed to the hub of the reflect call, not to T.F (in this code base only the TL decoder
 // does that, with bytes read from the network); (L3) control dependence (which branch ran) is no edge.
 package main
@@ -455,6 +456,30 @@ func (t *tr) expandVMW(n *node, x ssa.Value, f byte) {
 	}
 }
 
+// D2: x was stored into the named location a (global, struct field T.F of any instance, local
+// cell): whatever is written through a reference loaded back from that location lands in x's memory.
+func (t *tr) reloaded(n *node, a ssa.Value) {
+	loads := func(addr ssa.Value) {
+		for _, u := range t.usesOf(addr) {
+			if l, ok := u.(*ssa.UnOp); ok && l.Op == token.MUL && l.X == addr {
+				t.add(n, t.N(l, 'd'))
+			}
+		}
+	}
+	switch y := a.(type) {
+	case *ssa.Global, *ssa.Alloc:
+		loads(y)
+	case *ssa.FieldAddr:
+		if k, ok := fieldOf(y); ok {
+			for _, u := range t.fieldUses[k] {
+				if _, isAddr := u.(*ssa.FieldAddr); isAddr {
+					loads(u)
+				}
+			}
+		}
+	}
+}
+
 // D1, D2
 func (t *tr) expandD(n *node, x ssa.Value) {
 	stored := func(vals ...ssa.Value) {
@@ -468,6 +493,9 @@ func (t *tr) expandD(n *node, x ssa.Value) {
 		case *ssa.Store:
 			if r.Addr == x {
 				stored(r.Val)
+			}
+			if r.Val == x {
+				t.reloaded(n, r.Addr)
 			}
 		case *ssa.MapUpdate:
 			if r.Map == x {
